@@ -56,4 +56,10 @@ VARIANTS = [
      'edits': [(E, "UNK_MIN_DISTANCE = 2.75\n", "UNK_MIN_DISTANCE = 2.75\nELEMENT_ORDER = ('C', 'N', 'O', 'S')\nRADII = {'C': 1.7, 'N': 1.55}\n")]},
     {'name': 'set-for-membership-silent', 'expect': 'pass',
      'edits': [(E, "            if atom.element == 'C' and atom.name not in ['CA', 'C']:", "            if atom.element == 'C' and atom.name not in {'CA', 'C'}:")]},
+    {'name': 'path-route-replaces-undecodable-bytes', 'rule': 'C03.R4',
+     'edits': [('input.py', "    return contextlib.closing(open(input_file, 'rt'))", "    return contextlib.closing(open(input_file, 'rt', errors='replace'))")]},
+    {'name': 'zip-route-strips-bom', 'rule': 'C03.R4',
+     'edits': [('input.py', "            return io.TextIOWrapper(stream)", "            return io.TextIOWrapper(stream, encoding='utf-8-sig')")]},
+    {'name': 'path-route-default-mode-silent', 'expect': 'pass',
+     'edits': [('input.py', "    return contextlib.closing(open(input_file, 'rt'))", "    return contextlib.closing(open(input_file))")]},
 ]
